@@ -7,7 +7,7 @@ import tempfile
 from vlib.rtc.lib import *  # noqa
 
 RULE = ('generated DDDMP text files: 1-4 roots (either sign, constants excluded) over 2-5 support variables inside 2-8 declared '
-        'variables; variable identification modes .varinfo 0 (ids), 1 (permids), 3 (names); with .orderedvarnames (all '
+        'variables; variable identification modes .varinfo 0 (ids), 1 (permids), 3 (names); optional .auxids line; with .orderedvarnames (all '
         'variables) or without (levels from .permids, with gaps, not increasing in .ids order); support listed in id order '
         'that differs from the level order; node numbers a random permutation (not creation order, parents may precede '
         'children), node lines children-first or shuffled. Oracle: the truth table of each root computed from the generated '
@@ -82,7 +82,11 @@ def case_file(c, res):
     if ordered:
         hdr.append('.orderedvarnames ' + ' '.join(level_order))
     hdr += ['.ids ' + ' '.join(str(allv.index(x)) for x in supp_f),
-            '.permids ' + ' '.join(str(permid[x]) for x in supp_f),
+            '.permids ' + ' '.join(str(permid[x]) for x in supp_f)]
+    if rnd.random() < .4:
+        # auxiliary ids: any numbers; they identify nothing in the modes the loader supports
+        hdr.append('.auxids ' + ' '.join(str(rnd.randint(0, 20)) for _ in supp_f))
+    hdr += [
             f'.nroots {len(rootids)}', '.rootids ' + ' '.join(map(str, rootids)), '.nodes']
     text = '\n'.join(hdr + [l for _, l in lines] + ['.end', ''])
     td = tempfile.mkdtemp(prefix='verif_c16_')
